@@ -67,9 +67,12 @@ def mutants_of(d, counter):
             break
     # copy kind toggled
     if d.copy == "zero":
-        m = new("copy-kind")
-        m.copy = "deep"
-        out.append(m)
+        if not getattr(d, "zc_params", None):
+            # (a generic zero-copy definition keeps its ZeroCopy bounds, which a deep-copy type cannot
+            # satisfy for the eps-copy type of its parameters)
+            m = new("copy-kind")
+            m.copy = "deep"
+            out.append(m)
         m = new("repr-attribute")
         if m.align:
             m.align = m.align * 2
